@@ -92,9 +92,6 @@ func genSpec(t *rapid.T, kindPool []string, maxLen int) sm.Spec {
 		if s.Quality() {
 			r.Q = genQ(t, l)
 		}
-		if s.Aligned() {
-			r.Strand = 0
-		}
 		s.Rows = append(s.Rows, r)
 	}
 	return s
@@ -102,6 +99,23 @@ func genSpec(t *rapid.T, kindPool []string, maxLen int) sm.Spec {
 
 func gen(t *rapid.T) algebraCase {
 	c := algebraCase{Spec: genSpec(t, kinds, 40)}
+	if c.Spec.IsLinear() && rapid.IntRange(0, 59).Draw(t, "very-long") == 31 {
+		// a linear sequence of 64 Ki letters and more, odd and even (implementations that split long
+		// sequences into blocks meet their block arithmetic and the unpaired middle letter here)
+		n := rapid.SampledFrom([]int{65535, 65536, 65537, 131075}).Draw(t, "very-long-len")
+		unit := genLetters(t, c.Spec.Alpha, 7)
+		b := []byte(strings.Repeat(unit, n/7+1)[:n])
+		pool := sm.PairedLetters(c.Spec.Alpha)
+		b[n/2] = pool[0] // 'a': not its own complement
+		r := &c.Spec.Rows[0]
+		r.L = string(b)
+		if c.Spec.Quality() {
+			r.Q = make([]int, n)
+			for i := range r.Q {
+				r.Q[i] = i % 41
+			}
+		}
+	}
 	n := rapid.IntRange(1, 6).Draw(t, "nops")
 	cloned := false
 	for i := 0; i < n; i++ {
@@ -239,7 +253,40 @@ func check(c algebraCase) *vlib.Failure {
 			if nrows == 0 || c.Spec.IsLinear() {
 				continue
 			}
-			obj.Row(o.Row % nrows).RevComp()
+			// RevComp of one row: that row is reversed and complemented (qualities with their
+			// letters), its strand negated; the other rows do not move
+			ri := o.Row % nrows
+			before := obj.Observe()
+			obj.Row(ri).RevComp()
+			after := obj.Observe()
+			if len(after.Rows) != len(before.Rows) {
+				return vlib.Failf("row-revcomp-rows", "%s: %d rows before, %d after", ctx, len(before.Rows), len(after.Rows))
+			}
+			for j := range before.Rows {
+				want := before.Rows[j]
+				if j == ri {
+					n := len(want.L)
+					b := make([]byte, n)
+					var q []int
+					for k := 0; k < n; k++ {
+						b[k] = sm.Complement(c.Spec.Alpha, want.L[n-1-k])
+						if want.Q != nil {
+							q = append(q, want.Q[n-1-k])
+						}
+					}
+					want.L, want.Strand = string(b), -want.Strand
+					if want.Q != nil {
+						want.Q = q
+					}
+				}
+				got := after.Rows[j]
+				if got.L != want.L || (want.Q != nil && fmt.Sprint(got.Q) != fmt.Sprint(want.Q)) {
+					return vlib.Failf("row-revcomp-letters", "%s: RevComp of row %d: row %d reads %q %v, want %q %v", ctx, ri, j, got.L, got.Q, want.L, want.Q)
+				}
+				if got.Strand != want.Strand {
+					return vlib.Failf("row-revcomp-strand", "%s: RevComp of row %d: row %d has strand %d, want %d", ctx, ri, j, got.Strand, want.Strand)
+				}
+			}
 			resync(obj, mdl)
 		case "append":
 			if !(c.Spec.Aligned() || c.Spec.IsMulti()) || nrows == 0 {
@@ -294,6 +341,9 @@ func resync(obj *sm.Object, mdl *sm.Model) {
 
 func classes(c algebraCase) []string {
 	l := []string{"kind-" + c.Spec.Kind}
+	if len(c.Spec.Rows) > 0 && len(c.Spec.Rows[0].L) >= 65535 {
+		l = append(l, "linear-64Ki-letters-or-more")
+	}
 	maxLen, ragged, odd, lower := 0, false, false, false
 	for i, r := range c.Spec.Rows {
 		if len(r.L) > maxLen {
